@@ -97,7 +97,8 @@ theorem core_with_utxo {base : Image A} {nd : Node A} (h : Core base nd) (u : A.
     Core base { nd with utxo := u } :=
   ⟨h.img_eq, h.sound, h.created, h.tip_eq, h.idx_closed, h.idx_rows, h.dirty_idx⟩
 
-theorem connectBlock_spec {base : Image A} {nd : Node A} (cfg : Cfg) {n : Chain} (h : Core base nd)
+theorem connectBlock_spec {base : Image A} {nd : Node A} (cfg : Cfg) (hp : cfg.prune = none) {n : Chain}
+    (h : Core base nd)
     (hm : nd.img.marker ≠ none) (hn : n ∈ nd.img.stored) (hi : n ∈ keys nd.index)
     (hu : nd.utxo = utxoOf A n) :
     ((connectBlock cfg nd n).2 = true →
@@ -113,7 +114,7 @@ theorem connectBlock_spec {base : Image A} {nd : Node A} (cfg : Cfg) {n : Chain}
     rcases hc with h3 | h3
     · exact absurd h3 h1
     · exact absurd h2 h3
-  · simp only [hc, if_false]
+  · simp only [hc, if_false, hp, if_true]
     have hc1 : n ≠ [] := fun e => hc (Or.inl e)
     have hc2 : n.tail = nd.tip := by
       by_cases e : n.tail = nd.tip
@@ -128,7 +129,7 @@ theorem connectBlock_spec {base : Image A} {nd : Node A} (cfg : Cfg) {n : Chain}
       · exact rows_of_flushed c1 (flushDirty_dirty nd) (by rw [flushDirty_index]; exact hi)
       · rw [flushDirty_marker]; exact hm
     obtain ⟨c2, e2⟩ := core_step (nd' := { emit (flushDirty nd) (.connect n none) with tip := n })
-      c1 hs rfl rfl rfl rfl rfl
+      c1 hs rfl rfl rfl rfl rfl rfl
     have hlen : (effMarker ({ emit (flushDirty nd) (.connect n none) with tip := n } : Node A).img).length ≤ n.length := by
       have := List.IsSuffix.length_le c2.inv.marker_anc
       exact this
@@ -163,7 +164,7 @@ theorem disconnectTip_spec {base : Image A} {nd : Node A} (hA : A.Lawful) (h : G
       obtain ⟨c2, e2⟩ := core_step
         (nd' := { emit (flushDirty nd) (.disconnect (b :: p) (A.disc b (flushDirty nd).utxo)) with
                   tip := p, utxo := A.disc b (flushDirty nd).utxo, lastFlush := some p })
-        c1 hs rfl rfl rfl rfl rfl
+        c1 hs rfl rfl rfl rfl rfl rfl
       exact ⟨⟨c2, hu, by simp [emit, apply]⟩, Ext.trans e1 e2, fun _ => rfl⟩
     · simp only [hp, not_false_eq_true, if_true]
       exact ⟨h, Ext.refl nd, fun h => absurd h (by simp)⟩
@@ -188,7 +189,7 @@ theorem disconnectN_spec {base : Image A} (hA : A.Lawful) (k : Nat) : ∀ (nd : 
         refine ⟨g2, Ext.trans e1 e2, fun hok => ?_⟩
         rw [t2 hok, t1 rfl, List.drop_tail]
 
-theorem connectAll_spec {base : Image A} (cfg : Cfg) (bs : List Blk) : ∀ (nd : Node A), Good base nd →
+theorem connectAll_spec {base : Image A} (cfg : Cfg) (hp : cfg.prune = none) (bs : List Blk) : ∀ (nd : Node A), Good base nd →
     (∀ a, a ∈ chainsOn nd.tip bs → a ∈ nd.img.stored ∧ a ∈ keys nd.index) →
     Good base (connectAll cfg (chainsOn nd.tip bs) nd).1 ∧ Ext nd (connectAll cfg (chainsOn nd.tip bs) nd).1 := by
   induction bs with
@@ -197,7 +198,7 @@ theorem connectAll_spec {base : Image A} (cfg : Cfg) (bs : List Blk) : ∀ (nd :
     intro nd h hall
     simp only [chainsOn, connectAll]
     have hmem := hall (b :: nd.tip) (by simp [chainsOn])
-    have hspec := connectBlock_spec (nd := { nd with utxo := A.conn b nd.utxo }) cfg (n := b :: nd.tip)
+    have hspec := connectBlock_spec (nd := { nd with utxo := A.conn b nd.utxo }) cfg hp (n := b :: nd.tip)
       (core_with_utxo h.core _) h.marker_some hmem.1 hmem.2
       (by show A.conn b nd.utxo = utxoOf A (b :: nd.tip); rw [h.utxo_eq]; rfl)
     have hok := hspec.2.2 (by simp) rfl
